@@ -72,6 +72,14 @@ class Recorder_like(object):
         pass
 
 
+class _WriteOnly(object):
+    def __init__(self):
+        self.parts = []
+
+    def write(self, text):
+        self.parts.append(text)
+
+
 _bad_cache = {}
 
 
@@ -163,6 +171,17 @@ def probe(s, rec, bases=(), _nested=False):
                 rec.count('validate_returned_report')
             except Exception as e:
                 leak('validate', e, extra)
+                leaks += 1
+                continue
+            try:
+                # ... also when the report is written to "any object with a write method"
+                sink = _WriteOnly()
+                m.validate(report_file=sink, return_errors=True)
+                if len(sink.parts) != len(r.errors) + len(r.warnings):
+                    raise AssertionError('report object received %d lines for %d entries' % (len(sink.parts),
+                                                                                            len(r.errors) + len(r.warnings)))
+            except Exception as e:
+                leak('validate-with-report-object', e, extra)
                 leaks += 1
     return leaks
 
@@ -275,7 +294,9 @@ def run_systematic(spec, rec):
         for head in (HAND[0], HAND[1], 'MSH|^~\\&|~&\x00uuk', 'MSH|^~\\&|~|||!||!||>E~'):
             probe(head + '\r' + line, rec, bases)
             rec.count('second_msh_probes')
-    for seps in ('^~\\\n', '^~\\ ', ' ~\\&', '^\t\\&', '^~\\&\n', '\n~\\&'):
+    blanks = ['\x1c', '\x1d', '\x1e', '\x1f', '\x85', '\xa0', '\u2003', '\u2028', '\u2029', '\u3000', '\x0b', '\x0c']
+    uni = ['^~\\' + b for b in blanks] + [b + '~\\&' for b in blanks[:6]] + ['^' + b + '\\&' for b in blanks[4:8]]
+    for seps in ['^~\\\n', '^~\\ ', ' ~\\&', '^\t\\&', '^~\\&\n', '\n~\\&'] + uni:
         for tail in ('', '\rMSH|^~\\', '|A|B|C|D|20200101||ADT^A01^ADT_A01|1|P|2.5\rPID|1||x y&z'):
             probe('MSH|' + seps + tail, rec, bases)
             rec.count('blank_delimiter_probes')
